@@ -102,6 +102,10 @@ func Path(n int) *DenseGraph {
 
 //Cycle returns a copy of the cycle on n vertices.
 func Cycle(n int) *DenseGraph {
+	if n < 3 {
+		//There are too few vertices for a cycle: the edges {i, i+1 mod n} collapse to those of the path.
+		return Path(n)
+	}
 	edges := make([]byte, (n*(n-1))/2)
 	for i := 0; i < n-1; i++ {
 		edges[((i+1)*i)/2+i] = 1
